@@ -540,7 +540,13 @@ def mon_c15(tr):
         before_visible = "nil" if vb == "nil" or vb.split("/")[1] == "1" else vb.split("/")[0]
         if rp is st["replies"][0] and shown != before_visible and not (rq["islock"] is False and rq["flag"] & 2):
             # asynchronous grants in the same action may have run first only when the request itself was queued
-            out.append(("value:reply-not-pre-state-value", "request %d answered with value %s but the value before the operation was %s" % (rq["req"], shown, before_visible), i))
+            # C15 speaks about the value "while a key is held": the concurrent-check pre-check of a wait-when-unlocked
+            # probe on a FREE key (whose manager only survives because a released record is still referenced) passes nil
+            # as the reply's value (db.go:2000; Coq: C15_lock_reply_exceptions_real) -- outside the property, not judged
+            free_probe = rq["islock"] and rq["flag"] & 8 and rq["timeout"] == 0 and rq["tflag"] & 0x200 and rp["result"] == R["TIMEOUT"] \
+                and shown == "nil" and (kb is None or kb["locked"] == 0)
+            if not free_probe:
+                out.append(("value:reply-not-pre-state-value", "request %d answered with value %s but the value before the operation was %s" % (rq["req"], shown, before_visible), i))
         refused = rp["result"] in (R["TIMEOUT"], R["UNLOCK"], R["UNOWN"], R["STATE"], R["ACKW"]) or (rp["result"] == R["LOCKED"] and not rq["flag"] & 2 and rq["islock"])
         if refused and len(st["replies"]) == 1 and ka is not None and kb is not None and va.split("/")[0] != vb.split("/")[0]:
             out.append(("value:refused-request-changed-value", "request %d refused with %d but the value changed %s -> %s" % (rq["req"], rp["result"], vb, va), i))
